@@ -186,6 +186,7 @@ type Exec struct {
 	factSet map[string]int
 	qstack  []*qframe
 	escaped []escapedLit
+	lockSeq int
 	parentClosures map[int]*Contract
 	invLocs map[string][]string
 	refAx   map[string]bool
@@ -630,7 +631,11 @@ func (e *Exec) heapGet(key, sort string) string {
 		if key == "map#len" {
 			e.decls = append(e.decls, fmt.Sprintf("(assert (= (select %s 0) 0))", init))
 		}
-		if key == "elems:Ref" {
+		if key == "map#val.base" || key == "map#val:Ref" {
+			// references stored in maps at entry point to objects that exist at entry
+			e.decls = append(e.decls, fmt.Sprintf("(assert (forall ((m!w Int) (k!w Int)) (! (<= (root (select (select %s m!w) k!w)) alloc0) :pattern ((select (select %s m!w) k!w)))))", init, init))
+		}
+		if key == "elems:Ref" || key == "elems:Val" {
 			e.decls = append(e.decls, fmt.Sprintf("(assert (forall ((b!w Int) (i!w Int)) (! (<= (root (select (select %s b!w) i!w)) alloc0) :pattern ((select (select %s b!w) i!w)))))", init, init))
 		}
 		if !strings.HasPrefix(key, "ghost:") && (sort == SArrI || sort == SArrB) {
@@ -875,8 +880,12 @@ func elemsKey(elemT types.Type) (string, string) {
 	switch kindOf(elemT) {
 	case kBool:
 		return "elems:Bool", arrSort(SArrB)
-	case kRef, kStruct:
+	case kRef:
 		return "elems:Ref", arrSort(SArrI)
+	case kStruct:
+		return "elems:Val", arrSort(SArrI) // by-value struct elements (references to private copies)
+	case kSlice:
+		return "elems:Hdl", arrSort(SArrI) // slices of slices: elements are slice handles
 	}
 	return "elems:Int", arrSort(SArrI)
 }
@@ -954,6 +963,8 @@ func (e *Exec) mapValKeys(valT types.Type) []struct{ key, sort string } {
 		return []struct{ key, sort string }{{"map#val:Bool", arrSort(SArrB)}}
 	case kSlice:
 		return []struct{ key, sort string }{{"map#val.base", arrSort(SArrI)}, {"map#val.off", arrSort(SArrI)}, {"map#val.len", arrSort(SArrI)}}
+	case kRef, kStruct:
+		return []struct{ key, sort string }{{"map#val:Ref", arrSort(SArrI)}}
 	default:
 		return []struct{ key, sort string }{{"map#val:Int", arrSort(SArrI)}}
 	}
